@@ -279,7 +279,34 @@ def collect(repo):
             if shared and fp_ok(*need) and reaches(n, "_start_", st) and reaches(n, "_end_", en):
                 hand_modelled.append((Chars(n), Chars(kind)))
                 break
+    # ---- stage 4: the link and guid / id handlers are modelled by hand (Model/Mixin.lean: startLG / endLG, popLink); the names that reach them
+    # are listed only while the source of the handlers and of the helpers they use still has the modelled shape
+    FP4 = {
+        "_start_link": "attrs_d.setdefault('rel', 'alternate')\nif attrs_d['rel'] == 'self':\n    attrs_d.setdefault('type', 'application/atom+xml')\nelse:\n    attrs_d.setdefault('type', 'text/html')\ncontext = self._get_context()\nattrs_d = self._enforce_href(attrs_d)\nif 'href' in attrs_d:\n    attrs_d['href'] = self.resolve_uri(attrs_d['href'])\nif attrs_d.get('rel') == 'alternate' and self.map_content_type(attrs_d.get('type')) in self.html_types:\n    self.isentrylink = 1\nexpecting_text = self.infeed or self.inentry or self.insource\ncontext.setdefault('links', [])\nif not (self.inentry and self.inimage):\n    context['links'].append(FeedParserDict(attrs_d))\nif 'href' in attrs_d:\n    if self.isentrylink:\n        context['link'] = attrs_d['href']\nelse:\n    self.push('link', expecting_text)",
+        "_end_link": "self.pop('link')\nself.isentrylink = 0",
+        "_start_guid": "self.guidislink = attrs_d.get('ispermalink', 'true') == 'true'\nself.push('id', 1)",
+        "_end_guid": "value = self.pop('id')\nself._save('guidislink', self.guidislink and 'link' not in self._get_context())\nif self.guidislink:\n    self._save('link', value)",
+        "_enforce_href": "href = attrs_d.get('url', attrs_d.get('uri', attrs_d.get('href', None)))\nif href:\n    try:\n        del attrs_d['url']\n    except KeyError:\n        pass\n    try:\n        del attrs_d['uri']\n    except KeyError:\n        pass\n    attrs_d['href'] = href\nreturn attrs_d",
+        "resolve_uri": "return _urljoin(self.baseuri or '', uri)",
+        "_last_item": "items = context.get(key)\nif isinstance(items, list) and items and isinstance(items[-1], dict):\n    return items[-1]\nreturn None",
+        "_save": 'context = self._get_context()\nif overwrite:\n    context[key] = value\nelse:\n    context.setdefault(key, value)',
+        "_start_item": "self.entries.append(FeedParserDict())\nself.push('item', 0)\nself.inentry = 1\nself.guidislink = 0\nself.title_depth = -1\nid = self._get_attribute(attrs_d, 'rdf:about')\nif id:\n    context = self._get_context()\n    context['id'] = id\nself._cdf_common(attrs_d)",
+    }
+
+    def fp4_ok(*names):
+        return all(hasattr(M, n) and body_of(getattr(M, n)) == FP4[n] for n in names)
+    KINDS4 = {
+        "link": ("link", "link", ("_start_link", "_end_link", "_enforce_href", "resolve_uri", "_last_item")),
+        "guid": ("guid", "guid", ("_start_guid", "_end_guid", "_save", "_start_item")),
+    }
+    stage4 = []
+    for n in handlers(strict, "_start_"):
+        for kind, (st, en, need) in KINDS4.items():
+            if fp4_ok(*need) and reaches(n, "_start_", st) and reaches(n, "_end_", en):
+                stage4.append((Chars(n), Chars(kind)))
+                break
     T["Mixin"] = [
+        ("stage4L", "List (List Char × List Char)", stage4),
         ("handModelledL", "List (List Char × List Char)", hand_modelled),
         ("dateElementsL", "List (List Char × List Char × List Char)", date_handlers),
         ("contentElementsL", "List (List Char × List Char × List Char)", content_handlers),
